@@ -64,29 +64,51 @@ def interleaved(toks):
     return sw >= 1 and any(t == "C" for t in toks)
 
 
-def stress(ctx, exe, launch, cycles, seed, inject):
-    rc, out, err = ctx.run_exe(exe, ["stress", launch, str(cycles), str(seed), str(inject)], timeout=200)
-    m = re.search(r"STRESS launch=(\w) cycles=(\d+) inject=(\d) body_runs=(\d+) body_while_stopped=(\d+) lost_wakeups=(\d+)", out)
-    cfg = {"mode": "stress", "launch": launch, "cycles": cycles, "stress_seed": seed, "inject_delays": inject,
-           "rerun": "%s stress %s %d %d %d" % (exe, launch, cycles, seed, inject)}
+PATIENT = {"C03_PATIENCE": "4"}   # second opinion: every sample count / budget of the harness x4
+BIG = 3600                        # python-level time-outs are only a last resort: the harness decides on
+                                  # thread state / progress, never on elapsed time alone
+
+
+def stress_once(ctx, exe, launch, cycles, seed, inject, budget_ms, env=None):
+    rc, out, err = ctx.run_exe(exe, ["stress", launch, str(cycles), str(seed), str(inject), str(budget_ms)], timeout=BIG, env=env)
+    m = re.search(r"STRESS launch=(\w) cycles=(\d+) inject=(\d) body_runs=(\d+) body_while_stopped=(\d+) lost_wakeups=(\d+) wall_ms=(\d+)", out)
+    return rc, out, err, m
+
+
+def stress(ctx, exe, launch, cycles, seed, inject, budget_ms):
+    """time-boxed: runs until `cycles` are done or budget_ms elapsed; reports how many were done"""
+    rc, out, err, m = stress_once(ctx, exe, launch, cycles, seed, inject, budget_ms)
+    cfg = {"mode": "stress", "launch": launch, "cycles": cycles, "stress_seed": seed, "inject_delays": inject, "budget_ms": budget_ms,
+           "rerun": "%s stress %s %d %d %d %d" % (exe, launch, cycles, seed, inject, budget_ms)}
+    suspicious = (not m) or int(m.group(6)) > 0
+    if suspicious:
+        # no progress for 30 s / a loop thread seen blocked: confirm with 4x patience before reporting
+        ctx.log("stress %s inject=%d: %s -- re-running this configuration with 4x patience"
+                % (launch, inject, (out.strip().split("\n") or ["no output"])[0][:200]))
+        first = out
+        rc, out, err, m = stress_once(ctx, exe, launch, cycles, seed, inject, budget_ms, env=PATIENT)
+        ctx.cov.setdefault("stress_reruns", []).append({"config": cfg, "first": first[-400:], "second": out[-400:]})
     if not m:
-        what = "stress run did not finish (rc=%s): %s" % (rc, (out + err)[-300:].strip())
-        if "STRESS-HANG" in out or rc in (5, 124):
-            ctx.violation("unforced start/stop/destroy stress hangs (stop() or the destructor does not return)",
+        what = "stress run did not finish, twice (rc=%s): %s" % (rc, (out + err)[-1200:].strip())
+        if "STRESS-HANG" in out:
+            ctx.violation("unforced start/stop/destroy stress: no progress at all for 120 s, confirmed on a second run "
+                          "(stop() or the destructor does not return)",
                           dict(cfg, observed=what, required="stop() and the destructor terminate"))
         else:
             ctx.broken.append(what)
         return None
-    runs, bad, lost = int(m.group(4)), int(m.group(5)), int(m.group(6))
-    ctx.count(cycles)
+    done, runs, bad, lost = int(m.group(2)), int(m.group(4)), int(m.group(5)), int(m.group(6))
+    ctx.count(done)
     if bad:
         ctx.violation("unforced stress: the loop body ran %d time(s) while stop() had returned (launch %s, %s)"
                       % (bad, launch, "delays injected after atomic accesses" if inject else "no delays"),
                       dict(cfg, observed=m.group(0), required=ORACLE_TEXT["stop_safe"][1]))
     if lost:
-        ctx.violation("unforced stress: after start() returned the body did not run within 2 s, %d time(s) (launch %s)" % (lost, launch),
+        ctx.violation("unforced stress: after start() returned the loop thread stayed blocked on its condition variable "
+                      "(kernel state S, no CPU time) instead of running the body, %d time(s), confirmed on a second run (launch %s)" % (lost, launch),
                       dict(cfg, observed=m.group(0), required=ORACLE_TEXT["start_progress"][1]))
-    return {"launch": launch, "cycles": cycles, "inject": inject, "body_runs": runs, "body_while_stopped": bad, "lost_wakeups": lost}
+    return {"launch": launch, "cycles_requested": cycles, "cycles_done": done, "budget_ms": budget_ms, "wall_ms": int(m.group(7)),
+            "inject": inject, "body_runs": runs, "body_while_stopped": bad, "lost_wakeups": lost}
 
 
 def run(ctx):
@@ -94,10 +116,11 @@ def run(ctx):
         doc = json.load(open(ctx.replay))
         exe = ctx.cxx(["harness.cpp"], "harness", backend="omp", sanitize=None)
         if exe and doc.get("schedule"):
-            rc, out, err = ctx.run_exe(exe, ["replay"], stdin="R %s %s\n" % (doc.get("launch", "T"), doc["schedule"]), timeout=60)
+            rc, out, err = ctx.run_exe(exe, ["replay"], stdin="R %s %s\n" % (doc.get("launch", "T"), doc["schedule"]), timeout=BIG)
             print("replay of %s on %s:\n  %s" % (doc["schedule"], ctx.repo, out.strip().replace(" ; ", "\n  ")))
         elif exe and doc.get("mode") == "stress":
-            rc, out, err = ctx.run_exe(exe, ["stress", doc["launch"], str(doc["cycles"]), str(doc["stress_seed"]), str(doc["inject_delays"])], timeout=200)
+            rc, out, err = ctx.run_exe(exe, ["stress", doc["launch"], str(doc["cycles"]), str(doc["stress_seed"]), str(doc["inject_delays"]),
+                                             str(doc.get("budget_ms", 600000))], timeout=BIG)
             print(out.strip())
         return
 
@@ -122,7 +145,7 @@ def run(ctx):
     ]
     if not model or not exe:
         return
-    rc, out, err = ctx.run_exe(exe, ["probe"], timeout=20)
+    rc, out, err = ctx.run_exe(exe, ["probe"], timeout=BIG)
     hooks = "HOOKS=1" in out
     ctx.cov["hooks_present"] = hooks
 
@@ -130,7 +153,7 @@ def run(ctx):
     if hooks:
         hdr, cases = {}, []
         for l in ("T", "K"):
-            rc, out, err = vlib.sh2([model, "paths", l, "repaired"], timeout=120)
+            rc, out, err = vlib.sh2([model, "paths", l, "repaired"], timeout=BIG)
             lines = out.strip().split("\n")
             m = re.match(r"# states=(\d+) forcible_states=(\d+) edges=(\d+) forcible_edges=(\d+) paths=(\d+)", lines[0]) if lines else None
             if rc != 0 or not m:
@@ -146,16 +169,34 @@ def run(ctx):
             l = "TK"[i % 2]
             n = r.randint(20, 120)
             walks.append("W %s %d %d" % (l, r.randint(1, 10 ** 9), n))
-        rcw, outw, errw = vlib.sh2([model, "walks", "repaired"], stdin="\n".join(walks) + "\n", timeout=120)
+        rcw, outw, errw = vlib.sh2([model, "walks", "repaired"], stdin="\n".join(walks) + "\n", timeout=BIG)
         wl = [x for x in outw.strip().split("\n") if x.startswith("R ")]
         if rcw != 0 or len(wl) != nwalk:
             ctx.broken.append("model driver 'walks' failed: %s" % (outw + errw)[-200:])
         cases += wl
-        rc2, refute, _ = vlib.sh2([model, "refute", "T"], timeout=20)
+        rc2, refute, _ = vlib.sh2([model, "refute", "T"], timeout=BIG)
         refute = refute.strip()
         ctx.cov["model_graph"] = hdr
 
-        mism, crashes, mlines = vlib.differential(ctx, cases, model, [("AsyncLoop", exe, ["replay"])], model_args=["run", "repaired"], timeout=400)
+        mism, crashes, mlines = vlib.differential(ctx, cases, model, [("AsyncLoop", exe, ["replay"])], model_args=["run", "repaired"], timeout=BIG)
+        if mism or crashes:
+            # second opinion before anything is reported: the differing schedules alone, 4x patience
+            idx = sorted({i for (i, lab, il, ml) in mism})
+            if crashes:
+                n0 = min(n for (_, _, n) in crashes.values())
+                idx = sorted(set(idx) | set(range(n0, len(cases))))
+            ctx.log("forced replay: %d schedule(s) differ or were not run -- re-running them with 4x patience" % len(idx))
+            sub = [cases[i] for i in idx]
+            rc2_, il2, err2_ = vlib.run_lines(ctx, exe, ["replay"], sub, timeout=BIG, env=PATIENT)
+            ctx.cov["forced_reruns"] = {"schedules": len(idx), "first_pass_examples": [m_[2][-160:] for m_ in mism[:3]]}
+            mism2, crashes2 = [], {}
+            for k, i in enumerate(idx):
+                il = il2[k] if k < len(il2) else "<no output: harness died>"
+                if il != mlines[i]:
+                    mism2.append((i, "AsyncLoop", il, mlines[i]))
+            if rc2_ != 0:
+                crashes2["AsyncLoop"] = (rc2_, err2_[-3000:], idx[len(il2)] if len(il2) < len(idx) else len(cases))
+            mism, crashes = mism2, crashes2
         steps = sum(len(tokens(c)) for c in cases)
         ctx.count(steps)
         hist = {}
@@ -202,7 +243,7 @@ def run(ctx):
         ctx.cov["first_mismatches"] = corr[:5]
 
         # the refuting schedule of the Original system, forced on the current tree
-        rc, out, err = ctx.run_exe(exe, ["replay"], stdin="R T %s\nR K %s\n" % (refute, refute), timeout=60)
+        rc, out, err = ctx.run_exe(exe, ["replay"], stdin="R T %s\nR K %s\n" % (refute, refute), timeout=BIG)
         ctx.count(2 * len(refute.split()))
         rl = out.strip().split("\n")
         ctx.cov["refuting_schedule_on_this_tree"] = [x.split(" ; ")[-1] for x in rl]
@@ -218,7 +259,17 @@ def run(ctx):
         # implementation-side exploration with the property oracles
         xs = {}
         for l in ("T", "K"):
-            rc, out, err = ctx.run_exe(exe, ["explore", l, str(ctx.pick(3000, 20000))], timeout=400)
+            xargs = ["explore", l, str(ctx.pick(3000, 20000)), str(ctx.pick(600000, 3000000))]
+            rc, out, err = ctx.run_exe(exe, xargs, timeout=BIG)
+            if "XVIOL " in out or "XDONE" not in out:
+                # second opinion with 4x patience; only what shows up again is reported
+                ctx.log("exploration (launch %s) reported %s -- re-running with 4x patience"
+                        % (l, sorted(set(re.findall(r"XVIOL (\w+)", out))) or "no result"))
+                first = out
+                rc, out, err = ctx.run_exe(exe, xargs, timeout=BIG, env=PATIENT)
+                ctx.cov.setdefault("exploration_reruns", []).append({"launch": l, "first": first[-500:], "second": out[-500:]})
+                k1 = set(re.findall(r"XVIOL (\w+)", first))
+                out = "\n".join(ln for ln in out.split("\n") if not ln.startswith("XVIOL ") or ln.split()[1] in k1)
             for ln in out.split("\n"):
                 if ln.startswith("XVIOL "):
                     kind, sched, detail = [s.strip() for s in ln[6:].split("|", 2)]
@@ -238,6 +289,9 @@ def run(ctx):
                                   {"launch": l, "observed": out[-400:], "required": ORACLE_TEXT["hang"][1]}, found_input=False)
                 else:
                     ctx.broken.append("implementation exploration (launch %s) did not finish: rc=%s %s" % (l, rc, (out + err)[-200:]))
+            elif not xs[l]["complete"]:
+                ctx.log("exploration (launch %s) stopped at its time budget after %d states -- graph sizes not compared" % (l, xs[l]["states"]))
+                ctx.cov.setdefault("incomplete", []).append("implementation exploration launch %s: time budget reached after %d states" % (l, xs[l]["states"]))
             elif not ctx.violations and (xs[l]["states"], xs[l]["edges"]) != (hdr[l]["forcible_states"], hdr[l]["forcible_edges"]):
                 ctx.broken.append("correspondence: the real code's state graph under the controller has %d states / %d edges, the model's has %d / %d (launch %s)"
                                   % (xs[l]["states"], xs[l]["edges"], hdr[l]["forcible_states"], hdr[l]["forcible_edges"], l))
@@ -253,19 +307,20 @@ def run(ctx):
 
     # ------------------------------------------------------------------ unforced stress
     st = []
-    n_plain, n_inj = ctx.pick(2000, 100000), ctx.pick(1500, 20000)
+    n_plain, n_inj = ctx.pick(20000, 200000), ctx.pick(4000, 30000)
+    budget = ctx.pick(5000, 60000)    # ms per configuration (time box; the number of cycles done is reported)
     for l in ("T", "K"):
         for (n, inj) in ((n_plain, 0), (n_inj, 1)):
             if ctx.violations:   # a concrete failing schedule / stress run is already in hand
                 break
-            s = stress(ctx, exe, l, n, ctx.seed, inj)
+            s = stress(ctx, exe, l, n, ctx.seed, inj, budget)
             if s:
                 st.append(s)
     ctx.cov["stress"] = st
     if ctx.thorough():
         tsan = ctx.cxx(["harness.cpp"], "harness_tsan", backend="omp", sanitize="tsan")
         if tsan:
-            rc, out, err = ctx.run_exe(tsan, ["stress", "T", "3000", str(ctx.seed), "0"], timeout=400)
+            rc, out, err = ctx.run_exe(tsan, ["stress", "T", "3000", str(ctx.seed), "0", "120000"], timeout=BIG)
             ctx.cov["tsan_stress_rc"] = rc
             if rc == 97:
                 ctx.broken.append("ThreadSanitizer reports a data race in AsyncLoop under stress: " + err[-600:])
